@@ -1,5 +1,6 @@
 """Apply small breaking edits (canaries) to a SCRATCH copy of the repository (mkdtemp, removed at once) and
-require that the check of the named property reports a violation (exit 1).  Never touches /repo."""
+require that the check of the named property reports a violation (exit 1).  An entry with a "harmless" key (the reason) is an edit
+that does NOT break the property: there the check must not raise an alarm (exit 0 or 2).  Never touches /repo."""
 import json
 import os
 import shutil
@@ -40,9 +41,12 @@ def main():
             if want and c['property'] not in want and c['id'] not in want:
                 continue
             st, info = run_canary(c)
+            if c.get('harmless'):
+                st = 'FALSE-ALARM' if st == 'detected' else 'no-alarm' if st in ('missed', 'undecided') else st
+                info = '(harmless edit: no alarm expected) ' + info
             res[c['id']] = st
             print('%-10s %-40s %s  %s' % (c['property'], c['id'], st, info))
-    bad = [k for k, v in res.items() if v != 'detected']
+    bad = [k for k, v in res.items() if v not in ('detected', 'no-alarm')]
     print('%d canaries, %d not detected' % (len(res), len(bad)))
     return 1 if bad else 0
 
